@@ -88,11 +88,24 @@ def exhaustion_exits(b, ex, loops, h, const_bounds=True):
             continue
         if unconditional(x):
             out.add((x, none))
+    def counted(d):
+        """The non-constant side is a loop counter: some local it is read from is stepped by a constant
+        inside the loop (`i += 1`).  `alpha.abs() >= K` compares a data value, not the iteration count."""
+        from .expr import subexprs
+        locs = {y[1] for side in (d[2], d[3]) for y in subexprs(side) if y[0] == "var"}
+        for bb in body_:
+            for st in b.stmts(bb):
+                if st["k"] != "assign" or st["rv"]["k"] != "binop" or not st["rv"]["op"].startswith("Add"):
+                    continue
+                ops = (st["rv"]["a"], st["rv"]["b"])
+                if any(o.get("k") == "const" for o in ops) and any(o.get("k") in ("copy", "move") and not o["place"]["proj"] and o["place"]["local"] in locs for o in ops):
+                    return True
+        return False
     for x in own:
         if b.term(x)["k"] != "switch":
             continue
         d = ex.switch_discr(x)
-        if d[0] == "bin" and d[1] in ("Lt", "Le", "Gt", "Ge") and any(y[0] == "const" for y in (d[2], d[3])) and unconditional(x):
+        if d[0] == "bin" and d[1] in ("Lt", "Le", "Gt", "Ge") and any(y[0] == "const" for y in (d[2], d[3])) and unconditional(x) and counted(d):
             for tg in b.succ.get(x, []):
                 if tg not in body_:
                     out.add((x, tg))
